@@ -193,6 +193,15 @@ func c11Moments(c *ctx) {
 				}
 				f["v"] = v
 				f["panics"] = pn
+				// the hour object of this date's two-hour slot taken from the day's list, against the date's own
+				if i%3 == 0 {
+					tl := l.GetTimes()
+					idx := (m[3] + 1) / 2
+					skip := map[string]bool{"GetLunar": true, "String": true, "ToFullString": true}
+					if idx < len(tl) {
+						f["tms"] = []string{digest(tl[idx], skip), digest(l.GetTime(), skip)}
+					}
+				}
 				// the three reverse-lookup entry points agree (default school 2, default base 1900)
 				pz := []string{ec.GetYear(), ec.GetMonth(), ec.GetDay(), ec.GetTime()}
 				if sect == 2 && m[0] >= 1900 && m[0] <= 2030 && i%7 == 0 {
